@@ -325,13 +325,14 @@ def _extract_item(unit, out, repo, rel, sel, subs, trel, vacuity, assume_mode=Fa
             # like rewrite, but <from> is a regular expression and <to> may use \1.. groups (logged with the matched text)
             # count `N` = exactly N matches; `N?` = N matches or none (the construct may have been replaced by one that
             # Verus can take as it is: the function is then verified without the outline)
-            m = re.match(r'(\S+)\s+(\d+\??)\s+("(?:[^"\\]|\\.)*")\s*=>\s*("(?:[^"\\]|\\.)*")\s*$', args)
+            m = re.match(r'(\S+)\s+(\d+\??|\*)\s+("(?:[^"\\]|\\.)*")\s*=>\s*("(?:[^"\\]|\\.)*")\s*$', args)
             if not m:
                 raise ValueError("%s:%d: bad rewrite-re directive" % (trel, tl))
             rule, frm, to = m.group(1), json.loads(m.group(3)), json.loads(m.group(4))
-            optional = m.group(2).endswith("?")
-            cnt = int(m.group(2).rstrip("?"))
             found = [mm for mm in re.finditer(frm, src[start:end])]
+            anycount = m.group(2) == "*"   # `*`: every occurrence, however many (a family of calls with one helper per form)
+            optional = anycount or m.group(2).endswith("?")
+            cnt = len(found) if anycount else int(m.group(2).rstrip("?"))
             if len(found) == 0 and (optional or not os.environ.get("VF_STRICT_REWRITES")):
                 # the text the rule is about is not there (any more): the item is verified as it is written. Not applying a
                 # rewrite never adds an assumption (an R11 outline that is not applied means its helper is not used).
@@ -560,7 +561,7 @@ def _extract_item(unit, out, repo, rel, sel, subs, trel, vacuity, assume_mode=Fa
     if item.kind == "fn":
         from . import rustlex as _rl
         # executable text copied from the repository only (contract payloads and rewritten spans are template text)
-        ctot, cun = _rl.count_closures(" ; ".join(txt for txt, _k, _r in segs if _k == "repo"))
+        ctot, cun = _rl.count_closures(" rewritten_span__ ".join(txt for txt, _k, _r in segs if _k == "repo"))
         unit.functions.append({"name": label, "file": rel, "line": sf.line_of(item.start),
                                "has_spec": has_spec, "external_body": external,
                                "loops_annotated": sum(1 for s in subs if s[0] == "loop"),
